@@ -69,11 +69,11 @@ theorem tableRows_eq (dup : Bool) : ∀ (outs : List (List CellOut)) (R : List N
 collected before, so: anywhere in any content part, nested in a cell or not) appends exactly one
 table whose rows are `tableSpec` of the source cells, and leaves the caret at table level. -/
 theorem C04_table (cfg : PartCfg) (num : Dict Str (List NumAttr)) (c : Bool) (x : Xml) (hx : regTbl x = true)
-    (s s' : DC) (h1 : 1 ≤ s.depth) (h4 : s.depth ≤ 4) (h : walk cfg num c s x = .ok s') :
+    (s s' : DC) (h1 : 1 ≤ s.depth) (h4 : s.depth ≤ 4) (hni : NoImpl s) (h : walk cfg num c s x = .ok s') :
     ∃ outs, RowsMatch cfg (x.kids.filter regRow) outs ∧ s'.depth = 1 ∧
-      s'.root = s.root ++ [.list (tableSpec cfg.dup none outs)] := by
-  obtain ⟨outs, hm, hd, hr⟩ := walk_regTbl cfg num c x hx s s' h1 h4 h
-  exact ⟨outs, hm, hd, by rw [hr, tableRows_eq]; rfl⟩
+      s'.root = s.root ++ [.list (tableSpec cfg.dup none outs)] ∧ s'.openPars = s.openPars := by
+  obtain ⟨outs, hm, hd, hr, ho⟩ := walk_regTbl cfg num c x hx s s' h1 h4 hni h
+  exact ⟨outs, hm, hd, by rw [hr, tableRows_eq]; rfl, ho⟩
 
 /-! ## n × m -/
 
